@@ -38,7 +38,28 @@ def exhaustive_literals():
 
 def rand_pair(rnd):
     """(a, b) decimal pairs (mantissa, scale) chosen to stress exactness"""
-    k = gen.wchoice(rnd, [("rand", 4), ("eqscale", 2), ("ulp", 3), ("bigsmall", 2), ("carry", 2), ("small", 2)])
+    k = gen.wchoice(rnd, [("rand", 4), ("eqscale", 2), ("ulp", 3), ("bigsmall", 2), ("carry", 2), ("small", 2), ("samedigits", 2), ("scalesum", 2.5)])
+    if k == "samedigits":
+        # the same digit string at different scales (values differ by a power of ten)
+        nd = rnd.randint(20, 28)
+        m = rnd.choice([10 ** nd - 1, rnd.randrange(10 ** (nd - 1), min(10 ** nd, MAXD)), int("9" * nd)])
+        m = min(m, MAXD)
+        s1 = rnd.randint(0, 3)
+        s2 = s1 + rnd.randint(1, 4)
+        z = rnd.choice([0, 0, 1, 2])
+        if m * 10 ** z <= MAXD:
+            return (m, s1), (m * 10 ** z, s2)
+        return (m, s1), (m, s2)
+    if k == "scalesum":
+        # operand scales sum past 28 while the exact result is still representable (trailing zeros / zero)
+        s1 = rnd.randint(15, 28)
+        m1 = rnd.choice([1, 2, 5, 3, 0, rnd.randint(1, 10 ** 6)])
+        t = rnd.randint(1, 12)
+        c = rnd.choice([1, 1, 2, 3, 10, 0, 25])
+        a, b = (m1, s1), (c * 10 ** t, t)
+        if rnd.random() < 0.3:
+            a, b = (rnd.choice([5, 25, 125]), rnd.randint(10, 15)), (rnd.choice([2, 4, 8]) * 10 ** 0, rnd.randint(14, 18))
+        return (a, b) if rnd.random() < 0.5 else (b, a)
     if k == "rand":
         return gen.rand_num(rnd), gen.rand_num(rnd)
     if k == "eqscale":
